@@ -957,7 +957,7 @@ impl PrimeField for Fp2 {
         let c1: <Fp as PrimeField>::Repr = c1.into();
         let c1 = Fp::from_repr(c1);
 
-        CtOption::new(Fp2::new(c0.unwrap(), c1.unwrap()), Choice::from(1))
+        c0.and_then(|c0| c1.map(|c1| Fp2::new(c0, c1)))
     }
 
     fn to_repr(&self) -> Self::Repr {
